@@ -12,48 +12,51 @@ variable (crc : List UInt8 → Nat) (Z : ZFun) (lvl : Int)
 /-- after an operation: the model state projects to the abstract state, the oracle
     answered every call, and — unless the writer is dead — exactly the events of the
     operation were consumed and the compressor memory is the predicted one. -/
-structure Post (s' : XWState) (a' : AW) (rest : List ZEv) (z'' : ZSt) : Prop where
+structure Post (P : ZLog → ZSt → Prop) (s' : XWState) (a' : AW) (rest : List ZEv) (z'' : ZSt) : Prop where
   eq : proj s' a'.z = a'
   bad : s'.bad = false
   orc : s'.err = none → s'.oracle = rest ∧ a'.z = z''
+  lg : P s'.zlog a'.z
 
-theorem post_of {s' : XWState} {a' : AW} {rest : List ZEv} {z1 z'' : ZSt}
-    (h1 : proj s' z1 = a') (h2 : s'.bad = false) (h3 : s'.oracle = rest) (h4 : z1 = z'') :
-    Post s' a' rest z'' := by
+theorem post_of {P : ZLog → ZSt → Prop} {s' : XWState} {a' : AW} {rest : List ZEv} {z1 z'' : ZSt}
+    (h1 : proj s' z1 = a') (h2 : s'.bad = false) (h3 : s'.oracle = rest) (h4 : z1 = z'')
+    (h5 : P s'.zlog z1) : Post P s' a' rest z'' := by
   subst h1 h4
-  exact ⟨rfl, h2, fun _ => ⟨h3, rfl⟩⟩
+  exact ⟨rfl, h2, fun _ => ⟨h3, rfl⟩, h5⟩
 
-theorem post_dead {s' : XWState} {a' : AW} {rest : List ZEv} {z1 z'' : ZSt}
-    (h1 : proj s' z1 = a') (h2 : s'.bad = false) (h3 : s'.err ≠ none) : Post s' a' rest z'' := by
+theorem post_dead {P : ZLog → ZSt → Prop} {s' : XWState} {a' : AW} {rest : List ZEv} {z1 z'' : ZSt}
+    (h1 : proj s' z1 = a') (h2 : s'.bad = false) (h3 : s'.err ≠ none) (h5 : P s'.zlog z1) :
+    Post P s' a' rest z'' := by
   subst h1
-  exact ⟨rfl, h2, fun h => absurd h h3⟩
+  exact ⟨rfl, h2, fun h => absurd h h3, h5⟩
 
 /-! ### Flush -/
 
-theorem flush_sim (s : XWState) (z : ZSt) (m : Nat) (rest : List ZEv) {n : Int} (hb : s.bad = false)
-    (hi : Inv n (proj s z))
+theorem flush_sim (P : ZLog → ZSt → Prop) (hP : LogClosed Z lvl P)
+    (s : XWState) (z : ZSt) (m : Nat) (rest : List ZEv) {n : Int} (hb : s.bad = false)
+    (hi : Inv n (proj s z)) (hl : P s.zlog z)
     (h : s.err = none → s.oracle = (evsOp Z lvl n z (.flush m)).1 ++ rest) :
-    Post (flush crc s m).1 (aFlush crc Z lvl (proj s z) m) rest (evsOp Z lvl n z (.flush m)).2 := by
+    Post P (flush crc s m).1 (aFlush crc Z lvl (proj s z) m) rest (evsOp Z lvl n z (.flush m)).2 := by
   unfold flush aFlush
   have he : (proj s z).err = s.err := rfl
   rw [he]
   by_cases hd : s.err ≠ none
   · rw [if_pos hd, if_pos hd]
-    exact post_dead rfl hb hd
+    exact post_dead rfl hb hd hl
   · rw [if_neg hd, if_neg hd]
     have h := h (Classical.not_not.1 hd)
     match m with
     | 0 =>
-      obtain ⟨h1, h2, h3, _⟩ := sync_sim Z lvl s z rest h
-      exact post_of h1 (h3.trans hb) h2 rfl
+      obtain ⟨h1, h2, h3, _, h5⟩ := sync_sim Z lvl s z rest h
+      exact post_of h1 (h3.trans hb) h2 rfl (by show P (flushSync s).zlog _; rw [h5]; exact hP.flush _ _ hl)
     | 1 =>
-      obtain ⟨h1, h2, h3⟩ := full_sim crc Z lvl s z rest h
-      exact post_of h1 (h3.trans hb) h2 rfl
+      obtain ⟨h1, h2, h3, h4⟩ := full_sim crc Z lvl s z rest h
+      exact post_of h1 (h3.trans hb) h2 rfl (h4 P hP hl)
     | 2 =>
-      obtain ⟨h1, h2, h3⟩ := index_sim crc Z lvl s z rest hi h
-      exact post_of h1 (h3.trans hb) h2 rfl
+      obtain ⟨h1, h2, h3, h4⟩ := index_sim crc Z lvl s z rest hi h
+      exact post_of h1 (h3.trans hb) h2 rfl (h4 P hP hl)
     | k+3 =>
-      exact post_of rfl hb (by simpa [evsOp] using h) rfl
+      exact post_of rfl hb (by simpa [evsOp] using h) rfl hl
 
 /-! ### Write -/
 
@@ -61,16 +64,18 @@ theorem wstep_sim (s : XWState) (z : ZSt) (data : List UInt8) (k : Nat) (rest : 
     (h : s.oracle = { kind := .zwrite, n := k } :: rest) (hk : k ≤ data.length) (he : s.err = none) :
     proj (wstep s data k) { z with data := z.data ++ data.take k } = aPush (proj s z) (data.take k) ∧
       (wstep s data k).oracle = rest ∧ (wstep s data k).bad = s.bad ∧ (wstep s data k).err = none ∧
-      (popEv s .zwrite).1.n = k := by
+      (popEv s .zwrite).1.n = k ∧
+      (wstep s data k).zlog = s.zlog ++ [({ kind := .zwrite, n := k }, data.take k)] := by
   have hp := popEv_cons s .zwrite _ rest h rfl
   have hl : (data.take k).length = k := by rw [List.length_take]; omega
-  refine ⟨?_, ?_, ?_, ?_, ?_⟩
+  refine ⟨?_, ?_, ?_, ?_, ?_, ?_⟩
   · simp only [wstep, hp, Nat.lt_irrefl, if_false, proj, aPush, absorb_nil, hl, List.length_nil, he]
     simp
   · simp only [wstep, hp, Nat.lt_irrefl, if_false]
   · simp only [wstep, hp, Nat.lt_irrefl, if_false]
   · simp only [wstep, hp, Nat.lt_irrefl, if_false]
   · rw [hp]
+  · simp only [wstep, hp, Nat.lt_irrefl, if_false]
 
 theorem evsLoop_succ (n : Int) (fuel : Nat) (z : ZSt) (data : List UInt8) :
     evsLoop Z lvl n (fuel + 1) z data =
@@ -85,18 +90,19 @@ theorem evsLoop_succ (n : Int) (fuel : Nat) (z : ZSt) (data : List UInt8) :
               (data.drop (min (n - z.data.length).toNat data.length))).2) := by
   rw [evsLoop]
 
-theorem writeLoop_sim {n : Int} : ∀ (fuel : Nat) (s : XWState) (z : ZSt) (data : List UInt8) (cnt : Nat)
-    (rest : List ZEv), s.bad = false → Inv n (proj s z) →
+theorem writeLoop_sim (P : ZLog → ZSt → Prop) (hP : LogClosed Z lvl P) {n : Int} :
+    ∀ (fuel : Nat) (s : XWState) (z : ZSt) (data : List UInt8) (cnt : Nat)
+    (rest : List ZEv), s.bad = false → Inv n (proj s z) → P s.zlog z →
     (s.err = none → s.oracle = (evsLoop Z lvl n fuel z data).1 ++ rest) →
     2 * data.length + (if s.nchk - s.zwIn ≤ 0 then 1 else 0) ≤ fuel →
-    Post (writeLoop crc fuel s data cnt).1 (data.foldl (aByte crc Z lvl) (proj s z)) rest
+    Post P (writeLoop crc fuel s data cnt).1 (data.foldl (aByte crc Z lvl) (proj s z)) rest
       (evsLoop Z lvl n fuel z data).2
-  | 0, s, z, data, cnt, rest, hb, hi, h, hf => by
+  | 0, s, z, data, cnt, rest, hb, hi, hl, h, hf => by
     have hd : data = [] := List.eq_nil_of_length_eq_zero (by omega)
     subst hd
     simp only [writeLoop, evsLoop, List.nil_append] at h ⊢
-    exact ⟨rfl, hb, fun he => ⟨h he, rfl⟩⟩
-  | fuel+1, s, z, data, cnt, rest, hb, hi, h, hf => by
+    exact ⟨rfl, hb, fun he => ⟨h he, rfl⟩, hl⟩
+  | fuel+1, s, z, data, cnt, rest, hb, hi, hl, h, hf => by
     have hn : s.nchk = n := hi.nchk
     subst hn
     have hz : s.zwIn = z.data.length := hi.zwIn
@@ -107,10 +113,10 @@ theorem writeLoop_sim {n : Int} : ∀ (fuel : Nat) (s : XWState) (z : ZSt) (data
       subst hd'
       rw [if_pos (Or.inl hd)]
       simp only [List.isEmpty_nil, if_true, List.nil_append] at h ⊢
-      exact ⟨rfl, hb, fun he => ⟨h he, rfl⟩⟩
+      exact ⟨rfl, hb, fun he => ⟨h he, rfl⟩, hl⟩
     · by_cases he : s.err ≠ none
       · rw [if_pos (Or.inr he), foldl_aByte_dead crc Z lvl data _ he]
-        exact post_dead rfl hb he
+        exact post_dead rfl hb he hl
       · have he' : s.err = none := Classical.not_not.1 he
         have h := h he'
         rw [if_neg hd] at h ⊢
@@ -121,7 +127,7 @@ theorem writeLoop_sim {n : Int} : ∀ (fuel : Nat) (s : XWState) (z : ZSt) (data
           rw [if_pos hr]
           rw [if_pos hr] at hf
           simp only [List.append_assoc] at h
-          obtain ⟨f1, f2, f3⟩ := full_sim crc Z lvl s z _ h
+          obtain ⟨f1, f2, f3, f4⟩ := full_sim crc Z lvl s z _ h
           have hi1 : Inv s.nchk (proj (flushFull crc s) {}) := by rw [f1]; exact aFull_inv crc Z lvl _ hi
           have hfold : data.foldl (aByte crc Z lvl) (proj s z) =
               data.foldl (aByte crc Z lvl) (proj (flushFull crc s) {}) := by
@@ -132,7 +138,7 @@ theorem writeLoop_sim {n : Int} : ∀ (fuel : Nat) (s : XWState) (z : ZSt) (data
               rw [List.foldl_cons, List.foldl_cons,
                 aByte_full crc Z lvl (proj s z) x he' hr (by rw [hi.nchk]; exact hi.pos)]
           rw [hfold]
-          apply writeLoop_sim fuel (flushFull crc s) {} data cnt rest (f3.trans hb) hi1
+          apply writeLoop_sim P hP fuel (flushFull crc s) {} data cnt rest (f3.trans hb) hi1 (f4 P hP hl)
           · intro _; exact f2
           · have h0 : (flushFull crc s).zwIn = 0 := hi1.zwIn
             have h1 : (flushFull crc s).nchk = s.nchk := hi1.nchk
@@ -150,67 +156,76 @@ theorem writeLoop_sim {n : Int} : ∀ (fuel : Nat) (s : XWState) (z : ZSt) (data
           have hk1 : k ≤ data.length := by omega
           have hk2 : (k : Int) ≤ s.nchk - s.zwIn := by omega
           have hk3 : 1 ≤ k := by omega
-          obtain ⟨w1, w2, w3, w4, w5⟩ := wstep_sim s z data k _ h hk1 he'
+          obtain ⟨w1, w2, w3, w4, w5, w6⟩ := wstep_sim s z data k _ h hk1 he'
           rw [w5]
-          have hl : (data.take k).length = k := by rw [List.length_take]; omega
+          have hlk : (data.take k).length = k := by rw [List.length_take]; omega
           have hfold : data.foldl (aByte crc Z lvl) (proj s z) =
               (data.drop k).foldl (aByte crc Z lvl)
                 (proj (wstep s data k) { z with data := z.data ++ data.take k }) := by
             rw [w1]
             conv => lhs; rw [← List.take_append_drop k data]
-            rw [List.foldl_append, foldl_aByte_push crc Z lvl (data.take k) (proj s z) he' (by rw [hl]; exact hk2)]
+            rw [List.foldl_append, foldl_aByte_push crc Z lvl (data.take k) (proj s z) he' (by rw [hlk]; exact hk2)]
           have hi1 : Inv s.nchk (proj (wstep s data k) { z with data := z.data ++ data.take k }) := by
             rw [w1]; exact aPush_inv _ _ hi
           rw [hfold]
-          apply writeLoop_sim fuel (wstep s data k) _ (data.drop k) (cnt + k) rest (w3.trans hb) hi1
+          have hl1 : P (wstep s data k).zlog { z with data := z.data ++ data.take k } := by
+            rw [w6]
+            have := hP.write s.zlog z (data.take k) hl
+            rw [hlk] at this
+            exact this
+          apply writeLoop_sim P hP fuel (wstep s data k) _ (data.drop k) (cnt + k) rest (w3.trans hb) hi1 hl1
           · intro _; exact w2
           · rw [List.length_drop]
             split <;> omega
 
-theorem write_sim (s : XWState) (z : ZSt) (d : List UInt8) (rest : List ZEv) {n : Int} (hb : s.bad = false)
-    (hi : Inv n (proj s z))
+theorem write_sim (P : ZLog → ZSt → Prop) (hP : LogClosed Z lvl P)
+    (s : XWState) (z : ZSt) (d : List UInt8) (rest : List ZEv) {n : Int} (hb : s.bad = false)
+    (hi : Inv n (proj s z)) (hl : P s.zlog z)
     (h : s.err = none → s.oracle = (evsOp Z lvl n z (.write d)).1 ++ rest) :
-    Post (write crc s d).1 (d.foldl (aByte crc Z lvl) (proj s z)) rest (evsOp Z lvl n z (.write d)).2 := by
+    Post P (write crc s d).1 (d.foldl (aByte crc Z lvl) (proj s z)) rest (evsOp Z lvl n z (.write d)).2 := by
   unfold write
   by_cases hd : s.err ≠ none
   · rw [if_pos hd, foldl_aByte_dead crc Z lvl d _ hd]
-    exact post_dead rfl hb hd
+    exact post_dead rfl hb hd hl
   · rw [if_neg hd]
-    have hw := writeLoop_sim crc Z lvl (2 * d.length + 2) s z d 0 rest hb hi h (by split <;> omega)
+    have hw := writeLoop_sim crc Z lvl P hP (2 * d.length + 2) s z d 0 rest hb hi hl h (by split <;> omega)
     rcases hl : writeLoop crc (2 * d.length + 2) s d 0 with ⟨s', cnt⟩
     rw [hl] at hw
-    exact ⟨hw.eq, hw.bad, hw.orc⟩
+    exact ⟨hw.eq, hw.bad, hw.orc, hw.lg⟩
 
 /-! ### Close -/
 
 theorem closeTail_sim (s : XWState) (z : ZSt) :
-    proj (closeTail s).1 z = aCloseTail (proj s z) ∧ (closeTail s).1.bad = s.bad := by
+    proj (closeTail s).1 z = aCloseTail (proj s z) ∧ (closeTail s).1.bad = s.bad ∧
+      (closeTail s).1.zlog = s.zlog := by
   have he : (proj s z).err = s.err := rfl
   have hk : (proj s z).backSize = s.backSize := rfl
   have hs : (proj s z).sink = s.sink := rfl
   unfold closeTail aCloseTail
   rw [he, hk, hs]
   by_cases hd : s.err ≠ none
-  · rw [if_pos hd, if_pos hd]; exact ⟨rfl, rfl⟩
+  · rw [if_pos hd, if_pos hd]; exact ⟨rfl, rfl, rfl⟩
   · rw [if_neg hd, if_neg hd]
     rcases hm : Meta.encode (footerPayload s.backSize) .fstream with _ | blocks
-    · exact ⟨rfl, rfl⟩
+    · exact ⟨rfl, rfl, rfl⟩
     · simp only
       rcases hem : emitBlocks s.sink blocks 0 with ⟨sk, acc, e⟩
       cases e with
-      | some err => exact ⟨rfl, rfl⟩
+      | some err => exact ⟨rfl, rfl, rfl⟩
       | none =>
         simp only
-        split <;> exact ⟨rfl, rfl⟩
+        split <;> exact ⟨rfl, rfl, rfl⟩
 
-theorem close_sim (s : XWState) (z : ZSt) (rest : List ZEv) {n : Int} (hb : s.bad = false)
-    (hi : Inv n (proj s z))
+theorem close_sim (P : ZLog → ZSt → Prop) (hP : LogClosed Z lvl P)
+    (s : XWState) (z : ZSt) (rest : List ZEv) {n : Int} (hb : s.bad = false)
+    (hi : Inv n (proj s z)) (hl : P s.zlog z)
     (h : s.err = none → s.oracle = (evsOp Z lvl n z .close).1 ++ rest) :
-    Post (closeW crc s).1 (aClose crc Z lvl (proj s z)) rest (evsOp Z lvl n z .close).2 := by
+    Post P (closeW crc s).1 (aClose crc Z lvl (proj s z)) rest (evsOp Z lvl n z .close).2 := by
   have hne := aClose_err crc Z lvl (proj s z)
-  suffices hs : ∃ z1, proj (closeW crc s).1 z1 = aClose crc Z lvl (proj s z) ∧ (closeW crc s).1.bad = false by
-    obtain ⟨z1, h1, h2⟩ := hs
-    refine post_dead h1 h2 ?_
+  suffices hs : ∃ z1, proj (closeW crc s).1 z1 = aClose crc Z lvl (proj s z) ∧ (closeW crc s).1.bad = false ∧
+      P (closeW crc s).1.zlog z1 by
+    obtain ⟨z1, h1, h2, h5⟩ := hs
+    refine post_dead h1 h2 ?_ h5
     have : (closeW crc s).1.err = (proj (closeW crc s).1 z1).err := rfl
     rw [this, h1]; exact hne
   rw [closeW_eq]
@@ -218,44 +233,47 @@ theorem close_sim (s : XWState) (z : ZSt) (rest : List ZEv) {n : Int} (hb : s.ba
   have he : (proj s z).err = s.err := rfl
   rw [he]
   by_cases hc : s.err = some .closed
-  · rw [if_pos hc, if_pos hc]; exact ⟨z, rfl, hb⟩
+  · rw [if_pos hc, if_pos hc]; exact ⟨z, rfl, hb, hl⟩
   · rw [if_neg hc, if_neg hc]
     by_cases hd : s.err ≠ none
-    · rw [if_pos hd, if_pos hd]; exact ⟨z, rfl, hb⟩
+    · rw [if_pos hd, if_pos hd]; exact ⟨z, rfl, hb, hl⟩
     · rw [if_neg hd, if_neg hd]
       have h := h (Classical.not_not.1 hd)
       by_cases hq : s.zwOut + s.zwIn > 0 ∨ s.recs.length > 0
       · rw [if_pos hq, if_pos (show (proj s z).zwOut + (proj s z).zwIn > 0 ∨ (proj s z).recs.length > 0 from hq)]
-        obtain ⟨i1, i2, i3⟩ := index_sim crc Z lvl s z rest hi h
-        obtain ⟨c1, c2⟩ := closeTail_sim (flushIndex crc s) (evsIndex Z lvl z).2
-        exact ⟨_, by rw [c1, i1], c2.trans (i3.trans hb)⟩
+        obtain ⟨i1, i2, i3, i4⟩ := index_sim crc Z lvl s z rest hi h
+        obtain ⟨c1, c2, c3⟩ := closeTail_sim (flushIndex crc s) (evsIndex Z lvl z).2
+        exact ⟨_, by rw [c1, i1], c2.trans (i3.trans hb), by rw [c3]; exact i4 P hP hl⟩
       · rw [if_neg hq, if_neg (show ¬ ((proj s z).zwOut + (proj s z).zwIn > 0 ∨ (proj s z).recs.length > 0) from hq)]
-        obtain ⟨c1, c2⟩ := closeTail_sim s z
-        exact ⟨_, c1, c2.trans hb⟩
+        obtain ⟨c1, c2, c3⟩ := closeTail_sim s z
+        exact ⟨_, c1, c2.trans hb, by rw [c3]; exact hl⟩
 
 /-! ### runs -/
 
-theorem step_sim (s : XWState) (z : ZSt) (op : WOp) (rest : List ZEv) {n : Int} (hb : s.bad = false)
-    (hi : Inv n (proj s z))
+theorem step_sim (P : ZLog → ZSt → Prop) (hP : LogClosed Z lvl P)
+    (s : XWState) (z : ZSt) (op : WOp) (rest : List ZEv) {n : Int} (hb : s.bad = false)
+    (hi : Inv n (proj s z)) (hl : P s.zlog z)
     (h : s.err = none → s.oracle = (evsOp Z lvl n z op).1 ++ rest) :
-    Post (stepW crc s op).1 (aStep crc Z lvl (proj s z) op) rest (evsOp Z lvl n z op).2 := by
+    Post P (stepW crc s op).1 (aStep crc Z lvl (proj s z) op) rest (evsOp Z lvl n z op).2 := by
   cases op with
-  | write d => exact write_sim crc Z lvl s z d rest hb hi h
-  | flush m => exact flush_sim crc Z lvl s z m rest hb hi h
-  | close => exact close_sim crc Z lvl s z rest hb hi h
+  | write d => exact write_sim crc Z lvl P hP s z d rest hb hi hl h
+  | flush m => exact flush_sim crc Z lvl P hP s z m rest hb hi hl h
+  | close => exact close_sim crc Z lvl P hP s z rest hb hi hl h
 
-theorem run_sim {n : Int} : ∀ (ops : List WOp) (s : XWState) (z : ZSt) (rest : List ZEv), s.bad = false →
-    Inv n (proj s z) → (s.err = none → s.oracle = evsOps Z lvl n z ops ++ rest) →
-    ∃ z', proj (runW crc s ops).1 z' = aRun crc Z lvl (proj s z) ops ∧ (runW crc s ops).1.bad = false
-  | [], s, z, _, hb, _, _ => ⟨z, rfl, hb⟩
-  | op :: ops, s, z, rest, hb, hi, h => by
-    have hp := step_sim crc Z lvl s z op (evsOps Z lvl n (evsOp Z lvl n z op).2 ops ++ rest) hb hi
+theorem run_sim (P : ZLog → ZSt → Prop) (hP : LogClosed Z lvl P) {n : Int} :
+    ∀ (ops : List WOp) (s : XWState) (z : ZSt) (rest : List ZEv), s.bad = false →
+    Inv n (proj s z) → P s.zlog z → (s.err = none → s.oracle = evsOps Z lvl n z ops ++ rest) →
+    ∃ z', proj (runW crc s ops).1 z' = aRun crc Z lvl (proj s z) ops ∧ (runW crc s ops).1.bad = false ∧
+      P (runW crc s ops).1.zlog z'
+  | [], s, z, _, hb, _, hl, _ => ⟨z, rfl, hb, hl⟩
+  | op :: ops, s, z, rest, hb, hi, hl, h => by
+    have hp := step_sim crc Z lvl P hP s z op (evsOps Z lvl n (evsOp Z lvl n z op).2 ops ++ rest) hb hi hl
       (by intro he; rw [h he, evsOps, List.append_assoc])
     have hi1 : Inv n (proj (stepW crc s op).1 (aStep crc Z lvl (proj s z) op).z) := by
       rw [hp.eq]; exact aStep_inv crc Z lvl _ op hi
-    obtain ⟨z', r1, r2⟩ := run_sim ops (stepW crc s op).1 (aStep crc Z lvl (proj s z) op).z rest hp.bad hi1
-      (by intro he; obtain ⟨o1, o2⟩ := hp.orc he; rw [o1, o2])
-    refine ⟨z', ?_, ?_⟩
+    obtain ⟨z', r1, r2, r3⟩ := run_sim P hP ops (stepW crc s op).1 (aStep crc Z lvl (proj s z) op).z rest hp.bad hi1
+      hp.lg (by intro he; obtain ⟨o1, o2⟩ := hp.orc he; rw [o1, o2])
+    refine ⟨z', ?_, ?_, ?_⟩
     · have : (runW crc s (op :: ops)).1 = (runW crc (stepW crc s op).1 ops).1 := by
         simp only [runW]
       rw [this, r1, hp.eq]
@@ -263,6 +281,9 @@ theorem run_sim {n : Int} : ∀ (ops : List WOp) (s : XWState) (z : ZSt) (rest :
     · have : (runW crc s (op :: ops)).1 = (runW crc (stepW crc s op).1 ops).1 := by
         simp only [runW]
       rw [this]; exact r2
+    · have : (runW crc s (op :: ops)).1 = (runW crc (stepW crc s op).1 ops).1 := by
+        simp only [runW]
+      rw [this]; exact r3
 
 /-- the abstract initial state of `NewWriter(conf)`. -/
 def aInit (chunk index : Int) (hasConf : Bool) : AW :=
@@ -272,7 +293,8 @@ def aInit (chunk index : Int) (hasConf : Bool) : AW :=
 
 theorem newWriter_sim (level chunk index : Int) (hasConf : Bool) (orc : List ZEv) (s0 : XWState)
     (h0 : newWriter level chunk index hasConf {} ({ kind := .zreset } :: orc) = some s0) :
-    proj s0 {} = aInit chunk index hasConf ∧ s0.bad = false ∧ s0.oracle = orc := by
+    proj s0 {} = aInit chunk index hasConf ∧ s0.bad = false ∧ s0.oracle = orc ∧
+      s0.zlog = [({ kind := .zreset }, [])] := by
   unfold newWriter at h0
   split at h0
   · cases h0
@@ -281,7 +303,7 @@ theorem newWriter_sim (level chunk index : Int) (hasConf : Bool) (orc : List ZEv
     · simp only [Option.some.injEq] at h0
       subst h0
       simp only [resetW, zReset, popEv, if_true, proj, aInit, effChunk]
-      refine ⟨?_, trivial, trivial⟩
+      refine ⟨?_, trivial, trivial, rfl⟩
       have hx : (if (if hasConf = true ∧ index < 0 then (-1 : Int) else if hasConf = true ∧ index > 0 then index else 0) = 0
             then defaultIndexSize
             else if hasConf = true ∧ index < 0 then -1 else if hasConf = true ∧ index > 0 then index else 0) =
